@@ -63,3 +63,38 @@ Example C20_example_always_available :
   filter is_hook (snd (run cf [AddPublisher 1 1 true; RemovePublisher 1; AddPublisher 2 2 true; Close]))
   = [EOpen HAvail; EOpen HOnline; EClose HOnline; EOpen HOnline; EClose HOnline; EClose HAvail].
 Proof. vm_compute. reflexivity. Qed.
+
+(* ---- per-reader hooks (runOnRead / runOnUnread) of the HLS front end, muxer level ------------------------------------
+   Model/C20b_HlsMux.v (module HX; the other per-reader / per-connection sites: Props/C20b.v).  Requests for the
+   multivariant playlist of one path - ordinary ones and CDN ones - pass the HTTP handler's checks (MArrive), wait inside
+   pathManager.AddReader as long as the path manager likes (several CDN requests may all have seen "no CDN session yet")
+   and are registered in any order (MProceed); idle expiry, API kick and every way the muxer drops all its sessions
+   (instance failure, muxer close, Server.Close) interleave freely.  For ALL such schedules and every session s:
+   hooks.OnRead / the closure it returned are called in well-formed start/stop pairs, the pair of s is open exactly while
+   the muxer can still reach s (muxer.cdnSession / muxer.sessionsBySecret), and no pair is open once the muxer has
+   dropped its sessions, whatever not-admitted requests follow. *)
+Require MTX.Model.C20b_SessionHooks MTX.Model.C20b_HlsMux MTX.Proofs.C20b_HlsMux.
+Module SH := MTX.Model.C20b_SessionHooks.
+Module HM := MTX.Model.C20b_HlsMux.HX.
+
+Theorem C20_hls_reader_pairs : forall (ops : list HM.mop) (s : nat),
+  SH.pairs_okb false (HM.proj s (HM.mtrace true ops)) = true /\
+  mon_run (alt_mon SH.hcls) false (HM.proj s (HM.mtrace true ops)) = Some (HM.reach (HM.mfinal true ops) s).
+Proof.
+  intros ops s. split; [apply MTX.Proofs.C20b_HlsMux.hls_mux_pairs_okb|apply MTX.Proofs.C20b_HlsMux.hls_mux_pairs].
+Qed.
+Print Assumptions C20_hls_reader_pairs.
+
+Theorem C20_hls_reader_closed_after_close : forall (pre post : list HM.mop) (s : nat),
+  forallb (fun o => match o with HM.MProceed _ true => false | _ => true end) post = true ->
+  SH.pairs_okb true (HM.proj s (HM.mtrace true (pre ++ HM.MCloseAll :: post))) = true.
+Proof. exact MTX.Proofs.C20b_HlsMux.hls_mux_closed_after_close. Qed.
+Print Assumptions C20_hls_reader_closed_after_close.
+
+(* addSession replacing the CDN session without close2(): refuted by two concurrent first CDN requests *)
+Theorem C20_hls_replace_without_close_refuted :
+  let w := [HM.MArrive true; HM.MArrive true; HM.MProceed 0%nat true; HM.MProceed 1%nat true; HM.MCloseAll] in
+  SH.pairs_okb true (HM.proj 0%nat (HM.mtrace false w)) = false /\
+  SH.pairs_okb true (HM.proj 0%nat (HM.mtrace true w)) = true.
+Proof. vm_compute. split; reflexivity. Qed.
+Print Assumptions C20_hls_replace_without_close_refuted.
